@@ -60,7 +60,7 @@ class C05(core.Check):
         'org:zone-offset-0', 'org:zone-offset-last', 'org:zone-offset-past', 'org:bare-after-zone', 'org:GLOBAL-relative',
         'same-zone>=3-stretches', 'create:valid', 'create:outside-global', 'create:duplicate', 'create:inverted',
         'create:beyond-width', 'layout:global-redefined', 'layout:overlapping', 'layout:adjacent', 'layout:nested',
-        'include-from-zone', 'include-from-zone-then-continue', 'org:zone-offset-negative', 'org:bare-literal-inside-selected-zone', 'zone-switch-in-unselected-branch', 'isa-zone:inverted', 'isa-zone:beyond-width', 'inverted-by-1', 'expect:ACCEPT', 'expect:REJECT']}
+        'include-from-zone', 'include-from-zone-then-continue', 'org:zone-offset-negative', 'org:bare-literal-inside-selected-zone', 'zerountil-in-zone', 'zone-switch-in-unselected-branch', 'isa-zone:inverted', 'isa-zone:beyond-width', 'inverted-by-1', 'expect:ACCEPT', 'expect:REJECT']}
 
     def build(self, rng, directed=None):
         addr_bits = rng.choice([8, 10, 12, 16])
@@ -76,12 +76,21 @@ class C05(core.Check):
         main = []
         marker = [0x10]
 
-        def stretch(n, lines):
-            """n marker bytes as 1..3 byte lines"""
+        def stretch(n, lines, at=None):
+            """n marker bytes as 1..3 byte lines (with `at` = address of the first one: sometimes zeros up to an address)"""
             v = marker[0]
             marker[0] = (marker[0] + 0x11) & 0xFF or 0x10
             while n > 0:
                 k = rng.randrange(1, min(n, 4) + 1)
+                if at is not None and rng.random() < 0.2:
+                    # .zerountil fills in the selected zone like any other byte line
+                    lines.append({'k': 'zerountil', 'a': at + k - 1})
+                    tags.add('zerountil-in-zone')
+                    at += k
+                    n -= k
+                    continue
+                if at is not None:
+                    at += k
                 if rng.random() < 0.5:
                     lines.append({'k': 'data', 'width': 1, 'vals': [v] * k})
                 else:
@@ -184,7 +193,7 @@ class C05(core.Check):
                 tags.add('boundary:ends-at-global-end' if groom <= room else 'boundary:ends-at-zone-end')
             elif n == room_eff + 1:
                 tags.add('boundary:one-past-global-end' if groom <= room else 'boundary:one-past-zone-end')
-            stretch(n, main)
+            stretch(n, main, at=cursor[cur])
             cursor[cur] += n
             count[cur] += 1
             if count[cur] >= 3:
